@@ -36,7 +36,7 @@ PROPS = {
     'C17': P('proof', ['C17', 'C17b', 'C17c', 'C17d', 'C17e', 'C17f'], 'HSL: range, accuracy, anchor and round-trip theorems for every pixel of the unit cube + correspondence + f64 hexcone oracle'),
     'C18': P('proof', ['C18'], 'fast math helpers: totality for every bit pattern; accuracy theorems for cbrtf, powf, expf, exp2, log2; expf saturation; bit-exact oddness of cbrtf (all kernel-only) + correspondence + search', partial=['cbrtf accuracy is proved in relative form (2^-24 + 1e-11) for every normal argument, i.e. <= 1 ulp except within 1.7e-4 below a power of two where the bound reads 1.0002 ulp (the oracle checks <= 1 ulp on all 2^32 arguments in the thorough tier)', 'fastmath off: the helpers are libm (model parameter)']),
     'C19': P('proof', ['C19'], '3x3 algebra: structural, accuracy, identity and invert theorems for both formats + correspondence f32/f64 + exact oracle', partial=[]),
-    'C20': P('proof', ['C20', 'C20b', 'C20c'], 'build configuration: feature-resolution theorem on the regenerated manifests; every model theorem is stated for both fma values; correspondence and search under four builds',
+    'C20': P('proof', ['C20', 'C20b', 'C20c', 'C20d', 'C20e'], 'build configuration: feature-resolution theorem on the regenerated manifests; every model theorem is stated for both fma values; correspondence and search under four builds',
              builds=['default', 'fma', 'nofast', 'checked'], builds_thorough=['default', 'fma', 'nofast', 'checked']),
 }
 
